@@ -15,7 +15,7 @@
 # Copyright (c) 2020-2021 Antmicro <www.antmicro.com>
 # SPDX-License-Identifier: BSD-2-Clause
 
-from math import ceil
+from math import ceil, floor
 from collections import namedtuple
 
 from migen import *
@@ -329,7 +329,7 @@ class SDRAMModule:
             tRP   = self.ck_ns_to_cycles(self.get("tRP")),
             tRCD  = self.ck_ns_to_cycles(self.get("tRCD")),
             tWR   = self.ck_ns_to_cycles(self.get("tWR")),
-            tREFI = self.ck_ns_to_cycles(self.get("tREFI", fine_refresh_mode), margin=False),
+            tREFI = self.ck_ns_to_cycles(self.get("tREFI", fine_refresh_mode), margin=False, round_down=True),
             tRFC  = self.ck_ns_to_cycles(self.get("tRFC", fine_refresh_mode)),
             tWTR  = self.ck_ns_to_cycles(self.get("tWTR")),
             tFAW  = None if self.get("tFAW") is None else self.ck_ns_to_cycles(self.get("tFAW")),
@@ -380,10 +380,11 @@ class SDRAMModule:
             except:
                 pass
 
-    def ns_to_cycles(self, t, margin=True):
+    def ns_to_cycles(self, t, margin=True, round_down=False):
         clk_period_ns = 1e9/self.clk_freq
         t += self.margin if margin else 0
-        return ceil(t/clk_period_ns)
+        # Minimum timings are rounded up, maximum intervals (tREFI) have to be rounded down.
+        return floor(t/clk_period_ns) if round_down else ceil(t/clk_period_ns)
 
     def ck_to_cycles(self, c):
         return ceil(c/self.rate_frac.denom)
